@@ -1292,6 +1292,11 @@ _bucket_setstate(Bucket *self, PyObject *state)
     KEY_TYPE *keys;
     VALUE_TYPE *values;
 
+    if (!PyTuple_Check(state)) {
+        /* PyArg_ParseTuple would answer SystemError (bad internal call) */
+        PyErr_SetString(PyExc_TypeError, "state must be a tuple");
+        return -1;
+    }
     if (!PyArg_ParseTuple(state, "O|O:__setstate__", &items, &next))
         return -1;
 
